@@ -34,6 +34,30 @@ func rootsOf(v ssa.Value) rootSet {
 		seen[v] = true
 		switch x := v.(type) {
 		case *ssa.FieldAddr:
+			if al, ok := x.X.(*ssa.Alloc); ok && al.Referrers() != nil {
+				// a field of a local struct: what was stored into THAT field (not into its siblings)
+				rs[al] = true
+				for _, in := range *al.Referrers() {
+					switch u := in.(type) {
+					case *ssa.FieldAddr:
+						if u.X != ssa.Value(al) || u.Field != x.Field || u.Referrers() == nil {
+							continue
+						}
+						for _, in2 := range *u.Referrers() {
+							if st, ok := in2.(*ssa.Store); ok && st.Addr == ssa.Value(u) {
+								if isPointerLike(st.Val.Type()) || derefs > 0 {
+									walk(st.Val, derefs)
+								}
+							}
+						}
+					case *ssa.Store:
+						if u.Addr == ssa.Value(al) && (isPointerLike(u.Val.Type()) || derefs > 0) {
+							walk(u.Val, derefs)
+						}
+					}
+				}
+				return
+			}
 			walk(x.X, derefs)
 		case *ssa.IndexAddr:
 			walk(x.X, derefs)
@@ -74,17 +98,31 @@ func rootsOf(v ssa.Value) rootSet {
 		case *ssa.Alloc:
 			rs[v] = true
 			// a local variable: whatever was stored in it may be what we point into
-			if refs := x.Referrers(); refs != nil {
+			// (stores go through the variable itself or, for local arrays such as a varargs array,
+			// through element addresses; fields of a local struct are handled field by field in the
+			// FieldAddr case)
+			var visitRefs func(a ssa.Value, depth int)
+			visitRefs = func(a ssa.Value, depth int) {
+				refs := a.Referrers()
+				if refs == nil || depth > 6 {
+					return
+				}
 				for _, in := range *refs {
-					if st, ok := in.(*ssa.Store); ok {
-						if base := allocBase(st.Addr); base == x {
-							if isPointerLike(st.Val.Type()) || derefs > 0 {
-								walk(st.Val, derefs)
+					switch u := in.(type) {
+					case *ssa.Store:
+						if u.Addr == a && allocBase(u.Addr) == x {
+							if isPointerLike(u.Val.Type()) || derefs > 0 {
+								walk(u.Val, derefs)
 							}
+						}
+					case *ssa.IndexAddr:
+						if u.X == a {
+							visitRefs(u, depth+1)
 						}
 					}
 				}
 			}
+			visitRefs(x, 0)
 		case *ssa.Call:
 			// builtin append returns (possibly) its first argument's array
 			if b, ok := x.Call.Value.(*ssa.Builtin); ok && b.Name() == "append" {
